@@ -117,6 +117,12 @@ def vec_binop(ex, st, op, l, r, node):
                     st.assume(z3.ForAll([_i, _j], z3.Implies(z3.And(0 <= _i, _i <= _j, _j < Z(n)), out.t[_i] >= out.t[_j]),
                                         patterns=[z3.MultiPattern(out.t[_i], out.t[_j])]))
             return out
+        if isinstance(op, (ast.Add, ast.Sub)):
+            used('v +- c -> elementwise')
+            out = fresh_rvec(ex, st, n, 'shifted')
+            f = (lambda t: t + to_real(c)) if isinstance(op, ast.Add) else (lambda t: t - to_real(c))
+            st.assume(z3.ForAll([_i], out.t[_i] == f(l.t[_i]), patterns=[out.t[_i]]))
+            return out
         if isinstance(op, ast.Mult):
             out = fresh_rvec(ex, st, n, 'scaled')
             st.assume(z3.ForAll([_i], out.t[_i] == l.t[_i] * to_real(c), patterns=[out.t[_i]]))
